@@ -457,8 +457,8 @@ HEADER_LEN = {
 
 def default_skipper_counts_headers(rep, rule, prog):
     """the shared skipper reports how many bytes it consumed (retention cuts the unknown field out by that count): after
-    every framing read (`read_field_begin`, `read_list_begin`, ...) the matching `*_len` is taken before the next framing
-    read or the Ok exit, on every path - including the STOP branch of the struct loop"""
+    every framing read (`read_field_begin`, `read_list_begin`, ...) the matching `*_len` is taken before the Ok exit or the
+    next execution of the same read, on every path - including the STOP branch of the struct loop"""
     sk = find_skippers(prog)
     b = sk.get('sync_default')
     if b is None:
@@ -487,7 +487,7 @@ def default_skipper_counts_headers(rep, rule, prog):
             seen.add((x, e))
             if lens.get(x, set()) & want:
                 continue
-            if x in reads and x != rb or x in oks or (x == rb):
+            if x in oks or x == rb:      # (the count is a sum: where the matching *_len is added does not matter, only that it is)
                 bad = x
                 break
             e2 = _err_local_after(b, x, e)
@@ -496,7 +496,7 @@ def default_skipper_counts_headers(rep, rule, prog):
         if bad is None:
             rep.ok(rule, key, 'followed by %s on every path' % ' / '.join(sorted(want)), cs.loc())
         else:
-            what = 'the Ok exit' if bad in oks else reads[bad].name if bad in reads else 'the next round'
+            what = 'the Ok exit' if bad in oks else 'its next execution'
             rep.bad(rule, key, cs.loc(), 'the shared skipper can go from %s to %s without adding %s to the count it returns: the reported length is short, so a retained unknown field loses its last byte(s) (and the unchecked reader resumes inside it)' % (cs.name, what, ' / '.join(sorted(want))))
     if n < 10:
         rep.anchor_missing(rule, 'framing reads in the default skipper (found %d, expected 10)' % n)
